@@ -183,7 +183,7 @@ pub fn random_batches(opts: &Opts, out: &mut Out, rng: &mut rand_chacha::ChaCha1
             }
         }
     }
-    let nb = if opts.thorough { 1500 } else { 160 };
+    let nb = if opts.thorough { 1500 } else { 400 };
     let pick = |rng: &mut rand_chacha::ChaCha12Rng, n: usize| (rng.next_u32() as usize) % n;
     let mut made: Vec<Tmpl> = vec![];
     let mut plans: Vec<(Vec<usize>, VerifyAction, String)> = vec![];
@@ -227,7 +227,7 @@ pub fn random_batches(opts: &Opts, out: &mut Out, rng: &mut rand_chacha::ChaCha1
                 6 => Some(make_invalid(&base, pick(rng, 4))),
                 _ => {
                     // the proof of another member with the same shape
-                    let o: Vec<usize> = (0..pool.len()).filter(|i| *i != ms[pos] && pool[*i].proof.to_bytes() != base.proof.to_bytes() && pool[*i].inst.n == n && pool[*i].inst.t == t && pool[*i].inst.m == base.inst.m && pool[*i].ped == 0).collect();
+                    let o: Vec<usize> = (0..pool.len()).filter(|i| pool[*i].stmt.commitments_compressed != base.stmt.commitments_compressed && pool[*i].inst.n == n && pool[*i].inst.t == t && pool[*i].inst.m == base.inst.m && pool[*i].ped == 0).collect();
                     if o.is_empty() {
                         None
                     } else {
